@@ -203,51 +203,59 @@ theorem denormal_bound (A : Nat) (e : Int) (hA : A ≠ 0) (h151 : 0 ≤ e + 151)
     simp only [Nat.reducePow] at h3
     omega
 
+/-- `to68` of a positive value below the normal range (mantissa depressed to exponent -128), `e ≥ -151` -/
+theorem to68_denormal_pos (A : Nat) (e : Int) (hA : A ≠ 0) (h151 : 0 ≤ e + 151) (hhi : e + bitLen A < -128) :
+    to68 (A : Int) e = 0 * 2147483648 + 0 * 8388608 + A * 2 ^ (e + 151).toNat := by
+  have hT := denormal_bound A e hA h151 hhi
+  have hbp := bitLen_pos A hA
+  unfold to68 frexpExp
+  simp only [Int.natAbs_natCast]
+  generalize bitLen A = n at *
+  have hm0 : ¬ ((A : Int) = 0) := by omega
+  have c1 : ¬ (e + (n : Int) ≤ -(128 + 23)) := by omega
+  have c2 : ¬ (e + (n : Int) > 127) := by omega
+  have c3 : (e + (n : Int) < -128) := by omega
+  have c4 : ¬ ((A : Int) < 0) := by omega
+  simp only [hm0, c1, c2, c3, c4, if_false, if_true]
+  have hsh : (23 : Int) - n - (-128 - (e + n)) = e + 151 := by omega
+  rw [hsh, truncShift_nonneg _ _ h151, pyAnd_ff, pyAnd_m23, word_assemble _ _ _ (by omega) (by omega)]
+  have h1 : (((-128 : Int) - 128) % 256).toNat = 0 := by decide
+  have h2 : (((A : Int) * ((2 ^ (e + 151).toNat : Nat) : Int)) % 8388608).toNat = A * 2 ^ (e + 151).toNat := by
+    rw [← Int.natCast_mul]; omega
+  rw [h1, h2]
+
 theorem from68_to68_denormal_pos (A : Nat) (e : Int) (hA : A ≠ 0) (h151 : 0 ≤ e + 151) (hhi : e + bitLen A < -128) :
     from68 (to68 (A : Int) e : Nat) = .fin ⟨((A * 2 ^ (e + 151).toNat : Nat) : Int), -151⟩ := by
   have hT := denormal_bound A e hA h151 hhi
-  have hbp := bitLen_pos A hA
-  have h0 : to68 (A : Int) e = 0 * 2147483648 + 0 * 8388608 + A * 2 ^ (e + 151).toNat := by
-    unfold to68 frexpExp
-    simp only [Int.natAbs_natCast]
-    generalize bitLen A = n at *
-    have hm0 : ¬ ((A : Int) = 0) := by omega
-    have c1 : ¬ (e + (n : Int) ≤ -(128 + 23)) := by omega
-    have c2 : ¬ (e + (n : Int) > 127) := by omega
-    have c3 : (e + (n : Int) < -128) := by omega
-    have c4 : ¬ ((A : Int) < 0) := by omega
-    simp only [hm0, c1, c2, c3, c4, if_false, if_true]
-    have hsh : (23 : Int) - n - (-128 - (e + n)) = e + 151 := by omega
-    rw [hsh, truncShift_nonneg _ _ h151, pyAnd_ff, pyAnd_m23, word_assemble _ _ _ (by omega) (by omega)]
-    have h1 : (((-128 : Int) - 128) % 256).toNat = 0 := by decide
-    have h2 : (((A : Int) * ((2 ^ (e + 151).toNat : Nat) : Int)) % 8388608).toNat = A * 2 ^ (e + 151).toNat := by
-      rw [← Int.natCast_mul]; omega
-    rw [h1, h2]
-  rw [h0, from68_assembled _ _ _ (by omega) (by omega) (by omega)]
+  rw [to68_denormal_pos A e hA h151 hhi, from68_assembled _ _ _ (by omega) (by omega) (by omega)]
   unfold dec68
   simp
+
+/-- `to68` of a negative value below the normal range, `e ≥ -151` -/
+theorem to68_denormal_neg (A : Nat) (e : Int) (hA : A ≠ 0) (h151 : 0 ≤ e + 151) (hhi : e + bitLen A < -128) :
+    to68 (-(A : Int)) e = 1 * 2147483648 + 255 * 8388608 + (8388608 - A * 2 ^ (e + 151).toNat) := by
+  have hT := denormal_bound A e hA h151 hhi
+  have hbp := bitLen_pos A hA
+  unfold to68 frexpExp
+  simp only [Int.natAbs_neg, Int.natAbs_natCast]
+  generalize bitLen A = n at *
+  have hm0 : ¬ (-(A : Int) = 0) := by omega
+  have c1 : ¬ (e + (n : Int) ≤ -(128 + 23)) := by omega
+  have c2 : ¬ (e + (n : Int) > 127) := by omega
+  have c3 : (e + (n : Int) < -128) := by omega
+  have c4 : (-(A : Int) < 0) := by omega
+  simp only [hm0, c1, c2, c3, c4, if_false, if_true]
+  have hsh : (23 : Int) - n - (-128 - (e + n)) = e + 151 := by omega
+  rw [hsh, truncShift_nonneg _ _ h151, pyAnd_ff, pyAnd_m23, word_assemble _ _ _ (by omega) (by omega)]
+  have h1 : (((127 : Int) - -128) % 256).toNat = 255 := by decide
+  have h2 : ((-(A : Int) * ((2 ^ (e + 151).toNat : Nat) : Int)) % 8388608).toNat = 8388608 - A * 2 ^ (e + 151).toNat := by
+    rw [Int.neg_mul, ← Int.natCast_mul]; omega
+  rw [h1, h2]
 
 theorem from68_to68_denormal_neg (A : Nat) (e : Int) (hA : A ≠ 0) (h151 : 0 ≤ e + 151) (hhi : e + bitLen A < -128) :
     from68 (to68 (-(A : Int)) e : Nat) = .fin ⟨-((A * 2 ^ (e + 151).toNat : Nat) : Int), -151⟩ := by
   have hT := denormal_bound A e hA h151 hhi
-  have hbp := bitLen_pos A hA
-  have h0 : to68 (-(A : Int)) e = 1 * 2147483648 + 255 * 8388608 + (8388608 - A * 2 ^ (e + 151).toNat) := by
-    unfold to68 frexpExp
-    simp only [Int.natAbs_neg, Int.natAbs_natCast]
-    generalize bitLen A = n at *
-    have hm0 : ¬ (-(A : Int) = 0) := by omega
-    have c1 : ¬ (e + (n : Int) ≤ -(128 + 23)) := by omega
-    have c2 : ¬ (e + (n : Int) > 127) := by omega
-    have c3 : (e + (n : Int) < -128) := by omega
-    have c4 : (-(A : Int) < 0) := by omega
-    simp only [hm0, c1, c2, c3, c4, if_false, if_true]
-    have hsh : (23 : Int) - n - (-128 - (e + n)) = e + 151 := by omega
-    rw [hsh, truncShift_nonneg _ _ h151, pyAnd_ff, pyAnd_m23, word_assemble _ _ _ (by omega) (by omega)]
-    have h1 : (((127 : Int) - -128) % 256).toNat = 255 := by decide
-    have h2 : ((-(A : Int) * ((2 ^ (e + 151).toNat : Nat) : Int)) % 8388608).toNat = 8388608 - A * 2 ^ (e + 151).toNat := by
-      rw [Int.neg_mul, ← Int.natCast_mul]; omega
-    rw [h1, h2]
-  rw [h0, from68_assembled _ _ _ (by omega) (by omega) (by omega)]
+  rw [to68_denormal_neg A e hA h151 hhi, from68_assembled _ _ _ (by omega) (by omega) (by omega)]
   unfold dec68
   simp only [if_true, FV.fin.injEq, Dy.mk.injEq]
   omega
